@@ -109,6 +109,7 @@ structure Cfg where
   tConst : TokId
   tOldConst : TokId
   isType : Nat → List Ch → Bool    -- ch->is_type(text) when the n-th token is being produced
+  expectStops : Bool := false      -- the EXPECT rule of the <comment> state is the repaired variant (stops before `*/`)
 
 def kwFind (kws : List (List Ch × TokId × Nat)) (w : List Ch) : Option (TokId × Nat) :=
   match kws with
@@ -172,12 +173,31 @@ def expectLit : List Ch := [69, 88, 80, 69, 67, 84, 58]
 
 def expectAt (s : List Ch) : Bool := pre expectLit s
 
+/-- repaired variant of the rule: `"EXPECT:"([^\t \n*]|"*"+[^\t \n*/])*` — the value stops before a closing `*/` -/
+def expectTail2 : Nat → List Ch → Nat
+  | 0, _ => 0
+  | fuel + 1, s =>
+    match s with
+    | [] => 0
+    | c :: r =>
+      if c == 9 || c == 32 || c == 10 then 0
+      else if c == 42 then
+        let k := spanLen (fun d => d == 42) r          -- further stars
+        match r.drop k with
+        | d :: r' => if d == 9 || d == 32 || d == 10 || d == 47 then 0 else k + 2 + expectTail2 fuel r'
+        | [] => 0
+      else 1 + expectTail2 fuel r
+
+/-- length of the value after `EXPECT:`; `stops` = the rule of the source tree is the repaired variant -/
+def expectTail (stops : Bool) (s : List Ch) : Nat :=
+  if stops then expectTail2 (s.length + 1) s else spanLen (fun c => !(c == 9 || c == 32 || c == 10)) s
+
 /-- one step of the `<comment>` start condition (longest match: EXPECT ≥ 7 > "*/" = 2 > single character) -/
-def commentStep (s : List Ch) : CStep :=
+def commentStep (stops : Bool) (s : List Ch) : CStep :=
   match s with
   | [] => .eof
   | _ :: _ =>
-    if expectAt s then .expect (7 + spanLen (fun c => !(c == 9 || c == 32 || c == 10)) (s.drop 7))
+    if expectAt s then .expect (7 + expectTail stops (s.drop 7))
     else if pre [42, 47] s then .close
     else .skip
 
@@ -185,7 +205,7 @@ def commentStep (s : List Ch) : CStep :=
 def lexGo (cfg : Cfg) : Nat → Bool → Nat → List Ch → List Tok
   | 0, _, _, _ => []
   | fuel + 1, true, n, s =>
-    match commentStep s with
+    match commentStep cfg.expectStops s with
     | .eof => [.commentNotClosed]
     | .close => lexGo cfg fuel false n (s.drop 2)
     | .expect k => .expect ((s.take k).drop 7) :: lexGo cfg fuel true (n + 1) (s.drop k)
@@ -206,7 +226,7 @@ def lex (cfg : Cfg) (s : List Ch) : List Tok := lexGo cfg (s.length + 1) false 0
 def lexemesGo (cfg : Cfg) : Nat → Bool → Nat → Nat → List Ch → List (Nat × Nat × Nat × List Tok)
   | 0, _, _, _, _ => []
   | fuel + 1, true, n, pos, s =>
-    match commentStep s with
+    match commentStep cfg.expectStops s with
     | .eof => [(pos, pos, 1000, [.commentNotClosed])]
     | .close => (pos, pos + 2, 1001, []) :: lexemesGo cfg fuel false n (pos + 2) (s.drop 2)
     | .expect k => (pos, pos + k, 1002, [.expect ((s.take k).drop 7)]) :: lexemesGo cfg fuel true (n + 1) (pos + k) (s.drop k)
